@@ -74,10 +74,13 @@ def _instant(rng, zone, year):
     """returns (epoch, side label)"""
     tr = _transitions(zone, year)
     base = int(_dt.datetime(year, 1, 1, tzinfo=_dt.timezone.utc).timestamp())
-    kinds = ["jan", "jul", "random"]
+    kinds = ["jan", "jul", "random", "newyear"]
     if tr:
         kinds += ["before-switch", "after-switch", "fold0", "fold1", "before-switch", "after-switch"]
     k = rng.choice(kinds)
+    if k == "newyear":
+        # the days around 1 January (calendar year, ISO week year and local/UTC date differ here)
+        return base + rng.randint(-3 * 86400, 3 * 86400), k
     if k == "jan":
         return base + 14 * 86400 + rng.randint(0, 86399), k
     if k == "jul":
@@ -138,7 +141,7 @@ def run_case(cs):
     except Exception:
         cs.skip("zone-unavailable")
         return
-    year = rng.choice([2019, 2021, 2024, 2026])
+    year = rng.choice([2019, 2021, 2024, 2025, 2026, 2027, 2028])
     now, now_side = _instant(rng, zone, year)
     d = cs.dir()
     root = os.path.join(d, world.root_name(rng))
